@@ -33,3 +33,12 @@ pub(crate) type BlockBuilderForVerif = BlockBuilder<crate::key::InternalKey>;
 pub(crate) fn new_block_builder_for_verif(restart_interval: usize) -> BlockBuilderForVerif {
     BlockBuilder::new(restart_interval)
 }
+
+/// Verification hook: crate-internal access to types of private sub-modules.
+#[cfg(feature = "verif")]
+pub(crate) mod verif_access {
+    pub(crate) use super::block_handle::BlockHandle;
+    pub(crate) use super::filter_block::FilterBlockReader;
+    pub(crate) use super::filter_block_builder::FilterBlockBuilder;
+    pub(crate) use super::footer::Footer;
+}
